@@ -125,6 +125,7 @@ struct Views {
             if (iv.m->detached) v.add(refdom::INVALID_STATE_ERR);
             DOMNode* x = nullptr; VTRY(x = flag ? iv.x->nextNode() : iv.x->previousNode()); std::string e = judge(flag ? "iterator.nextNode" : "iterator.previousNode", v, threw, got, forbidden); if (!e.empty() || !v.ok()) return e;
             std::string before = nm(iv.m->ref) + (iv.m->before ? " (iterator before it)" : " (iterator after it)"); Node* want = iv.m->step(flag);
+            if (trace) fprintf(stderr, "TRACE   -> real %s model %s\n", nmx(x).c_str(), nm(want).c_str());
             if (x != w.xOf(want)) return std::string("view:iterator-step|") + (flag ? "nextNode()" : "previousNode()") + " of iterator " + std::to_string(c % its.size()) + " (root " + nm(iv.m->root) + ", whatToShow " + std::to_string(iv.m->f.show) + ", filter " + std::to_string(iv.m->f.kind) + ", reference node " + before + ") returned " + nmx(x) + ", DOM Traversal gives " + nm(want);
             if (x) { bool known; Node* r = rOf(x, known); if (r && !refdom::Model::isAncestorOrSelf(iv.m->root, r)) return "view:iterator-outside-root|the iterator returned a node that is not in the subtree of its root"; }
             return "";
@@ -165,11 +166,17 @@ struct Views {
             return "";
         }
         if (k == "idSet") {
-            if (!A || A->r->type != refdom::ELEMENT || A->r->attrs.empty()) return ""; Node* a = A->r->attrs[(size_t)op.geti("b") % A->r->attrs.size()]; if (a->hasNs) return "";
+            if (!A || A->r->type != refdom::ELEMENT || A->r->attrs.empty()) {      // the drawn node has no attribute: take the next live element that has one (few elements do)
+                std::vector<Slot*> withAttr, inTree; for (auto& s : w.slots) if (!s.dead && s.r->type == refdom::ELEMENT && !s.r->attrs.empty()) { withAttr.push_back(&s); if (s.r->root()->type == refdom::DOCUMENT) inTree.push_back(&s); }
+                if (withAttr.empty()) return ""; if (!inTree.empty() && n % 4 != 0) withAttr.swap(inTree); A = withAttr[(size_t)op.geti("a") % withAttr.size()]; }
+            Node* a = A->r->attrs[(size_t)op.geti("b") % A->r->attrs.size()]; if (a->hasNs) return "";
             bool isId = mm % 4 != 0; VTRY(((DOMElement*)A->x)->setIdAttribute((const XMLCh*)a->name.c_str(), isId)); std::string e = judge("setIdAttribute", v, threw, got, forbidden); if (!e.empty()) return e; a->idAttr = isId; viewOps++; return "";
         }
         if (k == "idGet") {
-            if (!A) return ""; DOMDocument* d = docOf(A); Node* rd = A->r->type == refdom::DOCUMENT ? A->r : A->r->doc; std::u16string val = U(kTexts[op.geti("t") % 8]); if (val.empty()) return "";
+            if (!A) return ""; DOMDocument* d = docOf(A); Node* rd = A->r->type == refdom::DOCUMENT ? A->r : A->r->doc; std::u16string val = U(kTexts[op.geti("t") % 8]);
+            if (flag) { std::vector<std::u16string> ids; for (auto& s : w.slots) { if (s.dead || s.r->type != refdom::ELEMENT || s.r->doc != rd) continue; for (auto a : s.r->attrs) if (a->idAttr) ids.push_back(refdom::Model::textOf(a)); }      // half of the lookups ask for a value that is (or was just made) an ID
+                if (!ids.empty()) val = ids[c % ids.size()]; }
+            if (val.empty()) return "";
             // candidates: live elements of this document with an ID attribute of that value
             std::vector<Node*> cand; for (auto& s : w.slots) { if (s.dead || s.r->type != refdom::ELEMENT || s.r->doc != rd) continue; for (auto a : s.r->attrs) if (a->idAttr && refdom::Model::textOf(a) == val) { cand.push_back(s.r); break; } }
             DOMElement* x = nullptr; VTRY(x = d->getElementById((const XMLCh*)val.c_str())); std::string e = judge("getElementById", v, threw, got, forbidden); if (!e.empty()) return e; viewOps++;
@@ -221,10 +228,12 @@ struct Views {
                     if (b->type == refdom::ATTRIBUTE || b->type == refdom::DOCUMENT || b->type == refdom::ENTITY || b->type == refdom::NOTATION) v.add(refdom::RANGE_INVALID_NODE_TYPE_ERR);
                     Node* parent = text ? sc->parent : sc; Node* ref = text ? nullptr : (R.s.o < sc->kids.size() ? sc->kids[R.s.o] : nullptr);
                     if (b == ref || (text && b == sc)) return "";       // inserting the node in front of itself / the start container itself: open
-                    if (v.ok()) { Verdict c2 = w.m.checkInsert(parent, b, text ? nullptr : ref); for (int x2 : c2.errs) v.add(x2); if (v.ok() && !c2.refusal.empty()) return ""; for (Node* p = sc; p; p = p->parent) if (p->readOnly) v.add(refdom::NO_MODIFICATION_ALLOWED_ERR); }
+                    if (v.ok()) { Verdict c2 = w.m.checkInsert(parent, b, text ? nullptr : ref); if (c2.open) return ""; for (int x2 : c2.errs) v.add(x2); if (v.ok() && !c2.refusal.empty()) return ""; for (Node* p = sc; p; p = p->parent) if (p->readOnly) v.add(refdom::NO_MODIFICATION_ALLOWED_ERR); }
                 }
                 Node* sc = R.s.c; size_t so = R.s.o; bool text = !R.detached && (sc->type == refdom::TEXT || sc->type == refdom::CDATA);
-                VTRY(rv.x->insertNode(B->x)); std::string e = judge("range.insertNode", v, threw, got, forbidden); if (!e.empty() || !v.ok()) return e;
+                if (trace) { DOMNode* xsc = nullptr; try { xsc = rv.x->getStartContainer(); } catch (...) {} fprintf(stderr, "TRACE insertNode: real start container %s type %d, newNode type %d parent %s, expected %s\n", nmx(xsc).c_str(), xsc ? (int)xsc->getNodeType() : -1, (int)B->x->getNodeType(), nmx(B->x->getParentNode()).c_str(), errNames(v).c_str()); }
+                VTRY(rv.x->insertNode(B->x)); if (trace) fprintf(stderr, "TRACE insertNode: threw=%d code=%d; newNode parent now %s\n", (int)threw, got, nmx(B->x->getParentNode()).c_str());
+                std::string e = judge("range.insertNode", v, threw, got, forbidden); if (!e.empty() || !v.ok()) return e;
                 if (text) { Node* tail = so > 0 ? w.m.splitText(sc, so) : nullptr; w.m.doInsert(sc->parent, b, tail ? tail : sc); if (tail && !pairTail(tail)) return "view:range-insert|insertNode inside a Text node did not split it"; }      // (no split at offset 0: the node goes in front of the Text node)
                 else w.m.doInsert(sc, b, so < sc->kids.size() ? sc->kids[so] : nullptr);
                 return "";
